@@ -65,6 +65,10 @@ func main() {
 	g.emitAccess()
 	g.emitSites()
 	g.emitTables()
+	g.emitTrans()
+	if failTrans {
+		os.Exit(1)
+	}
 
 	// write-if-changed, delete stale
 	must(os.MkdirAll(*out, 0o755))
@@ -86,6 +90,11 @@ func main() {
 	}
 	fmt.Printf("extract: %d Gen files (%d changed)\n", len(g.files), changed)
 }
+
+var (
+	stderrW   = os.Stderr
+	failTrans bool
+)
 
 func must(err error) {
 	if err != nil {
